@@ -417,6 +417,7 @@ _MORE8 = {
 }
 _MORE9 = {
     "C03": "Half of the Permutation leaves are drawn from directly (typed, inside a Custom function) so that rapid computes the generator's label itself; StringOfN over non-rune Int32 generators also has byte limits, and every rune of the result must be one the element generator can produce; RuneFrom lists with unencodable runes must stay unmodified.",
+    "C04": "Every rejection-heavy regexp (empty-width assertions), as StringMatching and as SliceOfBytesMatching, is recorded, pruned and replayed on its own over 60 seeds (not only when a random program happens to contain one).",
     "C08": "A fifth step statistic under -short (-rapid.steps=40: mean 20 in every Repeat call, however many came before).",
     "C09": "The fail-file family also runs with -rapid.checks=0 and with -short leaving no random test case (the files are replayed all the same); two skip patterns skip before the first draw.",
     "C10": "A Repeat action registers a cleanup and then skips.",
